@@ -61,3 +61,6 @@
 (define-fun rewrap ((a Val)) Val
   (ite ((_ is VNil) a) WNil (ite ((_ is VStr) a) (WStr (vstr a)) (ite ((_ is VBool) a) (WBool (vbool a))
   (ite ((_ is VInt) a) (WInt (vint a)) (ite ((_ is VFloat) a) (WFloat (vfloat a)) a))))))
+; cardinality is the size of the key set (trusted finite-set facts, true of every reachable heap)
+(assert (forall ((h Heap) (m Int)) (! (<= 0 (select (MCard h) m)) :pattern ((select (MCard h) m)))))
+(assert (forall ((h Heap) (m Int) (k Str)) (! (=> (select (select (MDom h) m) k) (<= 1 (select (MCard h) m))) :pattern ((select (select (MDom h) m) k)))))
